@@ -50,7 +50,7 @@ def main(p):
             want = x - (a * i + b)
         else:
             want = np.zeros(len(x))
-        if not np.allclose(got, want, atol=1e-6 * max(1, np.abs(x).max())):
+        if got.shape != want.shape or not np.allclose(got, want, atol=1e-6 * max(1, np.abs(x).max())):
             bad.append(f"detrend_1d({x.tolist()}) = {got.tolist()}, least-squares residual {want.tolist()}")
     elif k in ("running", "deredden"):
         n, w, method = p["n"], p["window"], p["method"]
